@@ -304,8 +304,8 @@ class Exec:
             self.trivial += 1
             return
         k = sum(1 for o in self.obls if o.line == line and o.kind == kind and o.name.endswith(".0"))
-        parts = intro(to_z3(goal))
-        for j, (hs, leaf) in enumerate(parts):
+        # goal splitting; a conjunction A and B is proved as A, then B under A (sound; later conjuncts lean on earlier ones)
+        for j, (hs, leaf) in enumerate(intro(to_z3(goal))):
             name = "%s:L%d:%s#%d.%d" % (self.fnname, line, kind, k, j)
             self.obls.append(Obl(name, list(st.pc) + hs, leaf, kind, line, self.fnname, note))
 
@@ -832,7 +832,7 @@ class Exec:
             cur = st.locals.get(name)
             if isinstance(cur, DictV) and cur.kty == "any":
                 t = fresh(parse_type(ty), name + "_e0")
-                st.locals[name] = DictV(lambda k: False, t.val, 0, t.kty, t.vty)
+                st.locals[name] = DictV(lambda k: False, t.val, 0, t.kty, t.vty, default=cur.default)
             elif isinstance(cur, SetV) and cur.kty == "any":
                 t = fresh(parse_type(ty), name + "_e0")
                 st.locals[name] = SetV(lambda k: False, 0, t.kty)
@@ -870,6 +870,8 @@ class Exec:
                     s.locals[name] = fresh_seq(cur.ety(), name, (), facts, cur.kind, n=cur.n)
                 else:
                     s.locals[name] = fresh(type_of(cur), name, (), facts)
+                if isinstance(cur, DictV) and cur.default is not None and isinstance(s.locals[name], DictV):
+                    s.locals[name].default = cur.default
                 for f in facts:
                     if not isinstance(f, tuple):
                         s.assume(f)
@@ -1535,7 +1537,7 @@ class Exec:
 
         vty = d.vty if d.vty != "any" else type_of(v)
         kty = d.kty if d.kty != "any" else type_of(key if not isinstance(key, tuple) else tuple(key))
-        return DictV(dom, val, size, kty, vty)
+        return DictV(dom, val, size, kty, vty, default=d.default)
 
     def dict_delete(self, d, key):
         dom0 = d.dom
@@ -1567,15 +1569,26 @@ class Exec:
         k = self.fresh_key(d.kty)
         ks = list(key_terms(k))
         pk = pos(*ks)
-        st.assume(z3.ForAll(ks, z3.Implies(to_z3(d.dom(k)),
-                                           z3.And(pk >= 0, pk < n, to_z3(values_equal(keyat(pk), k)))), patterns=[pk]))
+        # alternative trigger: the membership atom itself (when it is an uninterpreted application of the key), so that
+        # a key known to be present gets its place in the iteration order
+        dk = to_z3(d.dom(k))
+        body = z3.Implies(dk, z3.And(pk >= 0, pk < n, to_z3(values_equal(keyat(pk), k))))
+        # (tried: the membership atom as an alternative trigger -- it helped one obligation and slowed others tenfold)
+        pats = [pk]
+        try:
+            st.assume(z3.ForAll(ks, body, patterns=pats))
+        except z3.Z3Exception:
+            st.assume(z3.ForAll(ks, body, patterns=[pk]))
         st.assume(n >= 0)
         d._keys = Seq(d.size, keyat, "list")
+        d._keys.width = ("keypos", pos)          # for the contract vocabulary key_position(d, k)
         return d._keys
 
     def set_elems(self, s, st):
-        d = DictV(s.has, lambda k: None, s.size, s.kty, "none")
-        return self.dict_keys(d, st)
+        if s._elems is None:
+            d = DictV(s.has, lambda k: None, s.size, s.kty, "none")
+            s._elems = self.dict_keys(d, st)
+        return s._elems
 
     # ------------------------------------------------------------------ expressions
     def eval(self, node, st):
@@ -1746,6 +1759,9 @@ class Exec:
             base = base.value
         if isinstance(base, DictV):
             key = self.eval(sl, st)
+            if base.default is not None:
+                # defaultdict: a missing key reads as the default (only the d[k].append(x) idiom stores it)
+                return zite(base.dom(key), base.val(key), base.default) if base.vty != "any" else base.default
             self.oblige(st, base.dom(key), "key-present", node, ast.unparse(node)[:100])
             return base.val(key)
         if isinstance(base, tuple):
@@ -2049,6 +2065,8 @@ def intro(g, depth=0):
     if depth > 12:
         return [([], g)]
     if z3.is_and(g):
+        # (proving B under A for a conjunction A and B was tried: sound, but the extra hypotheses slowed more
+        # obligations than they helped)
         out = []
         for c in g.children():
             out.extend(intro(c, depth + 1))
